@@ -507,6 +507,19 @@ fn mixture_events(tr: &mut Tr, args: &Args, rng: &mut Rng) {
                 tr.ev(json!({"ev":"BinaryDiagram","case":name,"T":fs(t.to_reduced()),"npoints":np,"nstates":d.states.len(),"points":pts}));
             }
         }
+        // a spinodal line at a non-equimolar composition in both tiers (no random draw: the four asymmetric pairs)
+        if name.starts_with("asym:") {
+            let z = arr1(&[0.2, 0.8]);
+            let moles = Moles::from_reduced(z.clone());
+            let tmin = Temperature::from_reduced(tc_lo * 0.7);
+            match g(|| PhaseDiagram::spinodal(&eos, &moles, tmin, 6, None, opts())) {
+                Ok(d) => {
+                    let pts: Vec<Value> = d.states.iter().map(|s| json!({"v": phase(s.vapor()), "l": phase(s.liquid())})).collect();
+                    tr.ev(json!({"ev":"EnvelopeLine","case":name,"kind":"spinodal","z":fv(z.iter()),"Tmin":fs(tmin.to_reduced()),"npoints":6,"ok":true,"points":pts}));
+                }
+                Err(e) => tr.ev(json!({"ev":"EnvelopeLine","case":name,"kind":"spinodal","z":fv(z.iter()),"Tmin":fs(tmin.to_reduced()),"npoints":6,"ok":false,"err":err_name(&e),"points":[]})),
+            }
+        }
         // phase envelope at fixed composition: bubble-point line, dew-point line, spinodal line (continuation in temperature up to the critical point)
         if rng.below(if args.thorough { 3 } else { 4 }) == 0 {
             let x1 = *rng.pick(&[0.2, 0.5, 0.8]);
